@@ -205,9 +205,9 @@ theorem tileB_val (c : PartCfg) (P : List Nat) (Q : Nat) (env : String → Pts) 
   have : (decide ((0 : Int) ≤ (c1 : Int)) && decide ((0 : Int) ≤ (c0 : Int))) = true := by simp
   rw [if_pos this, sumAt_tileBPts]
 
-def noneInWindow (i lo hi : Nat) (Pt : Pts) : Bool :=
+def noneInWindow (i pre lo hi : Nat) (Pt : Pts) : Bool :=
   Pt.all fun pt => match pt.1[i]? with
-    | some w => !(decide (lo ≤ w) && decide (w < hi))
+    | some w => !(decide (lo ≤ w + pre) && decide (w < hi))
     | none => true
 
 /-- an aligned partition below the extent that is not present holds no element of some follower of the term in its window -/
@@ -216,22 +216,23 @@ def absentZeroB (c : PartCfg) (env : String → Pts) (P : List Nat) (Q : Nat) (t
     t.tensors.any fun x => match c.fol x.name with
       | some i =>
         let A := ((x.idx.getD i default).e.coef c.q).toNat
-        noneInWindow i (A * k) (A * k + c.stepF x.name + c.haloF x.name) (env x.name)
+        noneInWindow i (c.preF x.name) (A * k) (A * k + c.stepF x.name + c.haloF x.name) (env x.name)
       | none => false
 
 /-- the element a follower reads for `c0` lies in the window of `c0`'s own aligned partition -/
 theorem window_contains (c : PartCfg) (ext : String → Nat) (g0 : String → Nat) (c0 : Nat) (hq : g0 c.q = c0) (hn : 0 < c.n) (x : TensorAS) (i : Nat)
     (hF : FolOK c ext x i) (hrange : ∀ t ∈ (x.idx.getD i default).e.rest c.q, g0 t.2 < ext t.2)
     (A : Nat) (hA : ((x.idx.getD i default).e.coef c.q).toNat = A) :
-    ((A * (c.n * (c0 / c.n)) : Nat) : Int) ≤ (x.idx.getD i default).e.eval g0 ∧
+    ((A * (c.n * (c0 / c.n)) : Nat) : Int) ≤ (x.idx.getD i default).e.eval g0 + (c.preF x.name : Int) ∧
     (x.idx.getD i default).e.eval g0 < ((A * (c.n * (c0 / c.n)) + c.stepF x.name + c.haloF x.name : Nat) : Int) := by
-  obtain ⟨hi, haq1, hstep, hconst, hnonneg, hhalo⟩ := hF
+  obtain ⟨hi, haq1, hstep, hconst, hpre, hhalo⟩ := hF
   rw [hA] at hstep
   have haqA : (x.idx.getD i default).e.coef c.q = (A : Int) := by omega
   have hdec := eval_decomp c.q g0 (x.idx.getD i default).e
   rw [hq, hconst, haqA] at hdec
-  obtain ⟨hr0, hr1⟩ := rho_bounds g0 ext _ hnonneg hrange
+  obtain ⟨hr0, hr1⟩ := rho_bounds g0 ext _ hrange
   rw [← hhalo] at hr1
+  rw [← hpre] at hr0
   generalize (((x.idx.getD i default).e.rest c.q).map fun t => t.1 * (g0 t.2 : Int)).sum = ρ at hdec hr0 hr1
   rw [hdec, hstep]
   have h1 : c.n * (c0 / c.n) ≤ c0 := Nat.mul_div_le c0 c.n
@@ -249,12 +250,19 @@ theorem window_contains (c : PartCfg) (ext : String → Nat) (g0 : String → Na
   constructor <;> omega
 
 /-- a follower that stores nothing in a window reads zero at every element of the window -/
-theorem accessVal_zero_of_window (env : String → Pts) (g0 : String → Nat) (x : TensorAS) (i lo hi : Nat) (hi' : i < x.idx.length)
-    (hnone : noneInWindow i lo hi (env x.name) = true)
-    (hw : (lo : Int) ≤ (x.idx.getD i default).e.eval g0 ∧ (x.idx.getD i default).e.eval g0 < (hi : Int)) : accessValA env g0 x = 0 := by
+theorem accessVal_zero_of_window (env : String → Pts) (g0 : String → Nat) (x : TensorAS) (i pre lo hi : Nat) (hi' : i < x.idx.length)
+    (hnone : noneInWindow i pre lo hi (env x.name) = true)
+    (hw : (lo : Int) ≤ (x.idx.getD i default).e.eval g0 + (pre : Int) ∧ (x.idx.getD i default).e.eval g0 < (hi : Int)) : accessValA env g0 x = 0 := by
   unfold accessValA valAt
   split
-  · apply sumAt_eq_zero
+  · rename_i hall
+    have hmemI : (x.idx.getD i default).e.eval g0 ∈ x.idx.map (fun a => a.e.eval g0) := by
+      have : x.idx.getD i default = x.idx[i] := by simp [List.getD, List.getElem?_eq_getElem hi']
+      rw [this]; exact List.mem_map.2 ⟨x.idx[i], List.getElem_mem hi', rfl⟩
+    have hnn : (0 : Int) ≤ (x.idx.getD i default).e.eval g0 := by
+      have := List.all_eq_true.1 hall _ hmemI
+      simpa using this
+    apply sumAt_eq_zero
     intro pt hpt e
     have hget : pt.1[i]? = some ((x.idx.getD i default).e.eval g0).toNat := by
       rw [e, List.getElem?_map, List.getElem?_map]
@@ -332,7 +340,7 @@ theorem term_partB (c : PartCfg) (ext : String → Nat) (env : String → Pts) (
         have := (htens x0 hx0).2.2; unfold folCond at this; rw [hf] at this; exact this
       have hwin := window_contains c ext g0 c0 (hrel 0).hq hn x0 i0 hF (hrange x0 hx0 i0 hf) _ rfl
       have hz0 : accessValA env g0 x0 = 0 :=
-        accessVal_zero_of_window env g0 x0 i0 _ _ hF.1 hx0w ⟨hwin.1, hwin.2⟩
+        accessVal_zero_of_window env g0 x0 i0 _ _ _ hF.1 hx0w ⟨hwin.1, hwin.2⟩
       have hR : termValA env g0 t = 0 := by
         rw [hrhs, prodI_zero _ (by rw [← hz0]; exact List.mem_map.2 ⟨x0, hx0, rfl⟩)]; simp
       rw [hR]
